@@ -6,9 +6,12 @@ wt="$(mktemp -d /tmp/mutrun.XXXXXX)"; rmdir "$wt"
 git -C /repo worktree add -q "$wt" HEAD || exit 2
 out="$(mktemp -d /tmp/mutout.XXXXXX)"
 ( cd "$wt" && git apply "$mdir/patch.diff" ) || { echo "PATCH DOES NOT APPLY"; git -C /repo worktree remove --force "$wt"; exit 2; }
-cd /verif
+vc="$(mktemp -d /var/tmp/mutverif.XXXXXX)"
+rsync -a --exclude .git --exclude seeded --exclude replays /verif/ "$vc/"
+cd "$vc"
 VERIF_DEV=1 PYPYR_REPO="$wt" VERIF_OUT="$out" ./check "$pid" --tier "$tier" > "$out/log" 2>&1
 rc=$?
+cd /verif; rm -rf "$vc"
 echo "== $pid $(basename "$mdir") tier=$tier exit=$rc"
 grep -E "VIOLATION|KNOWN-FINDING|INFRA|^C[0-9]+ " "$out/log" | cut -c1-400
 for f in "$out"/replays/*.json; do [ -f "$f" ] && { echo "-- $f"; python3 -c "
